@@ -151,7 +151,7 @@ func solveVC(vc *VC, cfg solveCfg) {
 					ob.Output = "incremental script failed: " + msg
 				}
 				pending = append(pending, obs...)
-				if errs > 0 {
+				if errs > 0 && !strings.Contains(msg, "canceled") { // "canceled": z3's own time limit struck mid-command; the obligations are raced below
 					vc.unsupportedf("SMT script error: %s", msg)
 					return false
 				}
@@ -294,7 +294,7 @@ func solveVC(vc *VC, cfg solveCfg) {
 								ob.Output = "incremental script failed: " + msg
 							}
 							local = append(local, sh...)
-							if errs > 0 {
+							if errs > 0 && !strings.Contains(msg, "canceled") {
 								mu.Lock()
 								vc.unsupportedf("SMT script error: %s", msg)
 								mu.Unlock()
@@ -373,12 +373,27 @@ func raceOne(vc *VC, ob *Oblig, base string, cfg solveCfg) {
 	if ob.IsCover && tmo > 4 {
 		tmo = 4
 	}
-	ch := make(chan res, len(solvers))
-	for _, s := range solvers {
+	racers := solvers
+	if !ob.IsCover {
+		// one more racer: the same goal without the quantified background axioms (lemmas about
+		// uninterpreted helper functions). Fewer assumptions, so only its `unsat` counts; it decides the
+		// goals that do not need those lemmas but are slowed down by them (e.g. the ceil-division
+		// lemma turns linear arithmetic into nonlinear arithmetic).
+		racers = append(append([]solverDef{}, solvers...), solverDef{"z3-new/noax", solvers[0].args})
+	}
+	ch := make(chan res, len(racers))
+	for _, s := range racers {
 		s := s
 		go func() {
 			f := fmt.Sprintf("%s.%s.smt2", base, strings.ReplaceAll(s.name, "/", "_"))
-			os.WriteFile(f, []byte(forSolver(s.name, script)), 0o644)
+			sc := forSolver(s.name, script)
+			if s.name == "z3-new/noax" {
+				body := vc.standaloneBody(ob, true)
+				if strings.HasSuffix(script, body) {
+					sc = dropQuantified(script[:len(script)-len(body)]) + body
+				}
+			}
+			os.WriteFile(f, []byte(sc), 0o644)
 			t0 := time.Now()
 			out, _ := runCmd(ctx, s.args(f, tmo))
 			if !cfg.keep {
@@ -398,9 +413,12 @@ func raceOne(vc *VC, ob *Oblig, base string, cfg solveCfg) {
 	}
 
 	var outs []string
-	for range solvers {
+	for range racers {
 		r := <-ch
 		outs = append(outs, fmt.Sprintf("%s: %s (%.2fs)", r.solver, r.ans, r.secs))
+		if r.solver == "z3-new/noax" && r.ans != want {
+			continue
+		}
 		if r.ans == want {
 			ob.Status = "proved"
 			ob.Solver = r.solver
